@@ -23,12 +23,14 @@ Maps == <<
   << O("20","",1), O("21","",2), O("20","",3), O("21","",4) >>,
   << O("50","K",3), O("50","C",7), O("50","K",9) >>,
   << O("59","F",1), O("59","A",2), O("50","H",3), O("50","G",4) >>,
+  << O("50","H",1), O("50","G",2), O("50","F",3) >>,
+  << O("50","C",1), O("50","G",2), O("50","F",3), O("50","K",4), O("50","C",5) >>,
   << >>
 >>
 
 Tags  == {<<"50","">>, <<"50","K">>, <<"50","C">>, <<"59","">>, <<"59","A">>, <<"20","">>}
 Bases == {"50", "59", "20"}
-Constraints == {{}, {"C", "L"}, {"A", "F", "K"}, {"A"}}
+Constraints == {{}, {"C", "L"}, {"A", "F", "K"}, {"A"}, {"F", "G", "H"}, {"C", "K"}}
 
 vars == <<tvars, hist, mapid>>
 
